@@ -76,11 +76,20 @@ class PUnit:
     def run(self, ctx):
         res = UnitResult(self.name, "P")
         t0 = time.time()
+        from vlib import ledger
+        updating = os.environ.get("VERIF_LEDGER_UPDATE") == "1"
         for c in self.contracts:
             rep = verify_function(c, self.registry, label_prefix=f"{ctx.pid}/")
             fn = {"function": c.target, "sha256": rep.sha, "paths": rep.paths, "inlined": getattr(rep, "inlined", []),
                   "obligations": 0, "discharged": 0, "kinds": {}}
             res.functions.append(fn)
+            led = ledger.lookup(ctx.pid, c.target)
+            try:
+                modsha = ledger.module_sha(source.load(c.module))
+            except Exception:
+                modsha = None
+            changed = led is not None and (led["sha256"] != rep.sha or led["module_sha256"] != modsha)
+            fn["source_changed_since_ledger"] = changed
             if rep.error:
                 res.undecided.append(f"UNSUPPORTED {c.target}: {rep.error}")
                 continue
@@ -89,19 +98,38 @@ class PUnit:
                 continue
             solver.discharge(rep, timeout_ms=ctx.timeout_ms)
             res.trusted |= set(rep.trusted_used)
+            counts = {}
             for ob in rep.obligations:
                 res.obligations += 1
                 fn["obligations"] += 1
                 res.solver_time += ob.time
                 res.backends[ob.backend] = res.backends.get(ob.backend, 0) + 1
                 fn["kinds"][ob.kind] = fn["kinds"].get(ob.kind, 0) + 1
+                short = ob.oid.split("/", 1)[1]
                 if ob.status == "unsat":
                     res.discharged += 1
                     fn["discharged"] += 1
+                    counts[short] = counts.get(short, 0) + 1
                 elif ob.status == "sat":
                     res.violations.append(self.make_violation(ctx, c, rep, ob))
                 else:
-                    res.undecided.append(f"UNDECIDED {ob.oid} (line {ob.line}): {getattr(ob, 'reason', 'unknown')}")
+                    reason = getattr(ob, "reason", "unknown")
+                    if changed and led["discharged"].get(short, 0) > 0:
+                        v = self.make_violation(ctx, c, rep, ob)
+                        v.detail = (f"obligation discharged on the ledger tree (sha {led['sha256'][:12]}) is no longer discharged on the changed "
+                                    f"source (sha {str(rep.sha)[:12]}); solver: {reason}")
+                        v.obligation["solver_reason"] = reason
+                        res.violations.append(v)
+                    else:
+                        res.undecided.append(f"UNDECIDED {ob.oid} (line {ob.line}): {reason}")
+            if led is not None and not changed and not updating:
+                driven = {k: v for k, v in led["discharged"].items() if k.split(":")[0].split("/")[-1] in ("post", "inv.init", "inv.preserved", "pre@call", "raises.sound", "raises.complete")}
+                now = {ob.oid.split("/", 1)[1] for ob in rep.obligations}
+                missing = [k for k in driven if k not in now]
+                if missing:
+                    res.errors.append(f"vacuity guard: {c.target} unchanged since the ledger but obligations {missing[:3]} were not generated")
+            if updating:
+                ledger.record(ctx.pid, c.target, rep.sha, modsha, counts, getattr(rep, "inlined", []))
             if len(res.samples) < 6:
                 for ob in rep.obligations[:2]:
                     res.samples.append({"obligation": ob.oid, "line": ob.line, "kind": ob.kind, "status": ob.status,
